@@ -173,13 +173,23 @@ class RouterInfoCache:
             if _debug: RouterInfoCache._debug("    - no router references: %r", list(self.routers.keys()))
             return
 
-        # move the router info records to the new net
-        snet_routers = self.routers[new_snet] = self.routers.pop(old_snet)
+        if old_snet == new_snet:
+            if _debug: RouterInfoCache._debug("    - same network")
+            return
 
-        # update the paths
-        for address, router_info in snet_routers.items():
+        # take the router info records away from the old net
+        snet_routers = self.routers.pop(old_snet)
+
+        # forget the paths from the old net
+        for router_info in snet_routers.values():
             for dnet in router_info.dnets:
-                self.path_info[(new_snet, dnet)] = self.path_info.pop((old_snet, dnet))
+                del self.path_info[(old_snet, dnet)]
+
+        # learn them again on the new net, there might be routers already
+        # known on that network which keep what is not replaced
+        for address, router_info in snet_routers.items():
+            for dnet, status in router_info.dnets.items():
+                self.update_router_info(new_snet, address, [dnet], status)
 
 #
 #   NetworkAdapter
